@@ -357,6 +357,15 @@ func Main(t *testing.T) {
 			min := cp
 			if cp.History == nil {
 				min = Shrink(t, P, cp, v)
+				// A violation must replay in a fresh process. If the minimised plan does
+				// not, what was seen depends on what this worker had executed before: keep
+				// the plan as it was and record the worker's position, which replay re-runs.
+				if !reproducesFresh(min, outPath) {
+					cp.Violation = v
+					cp.History = &History{Seed: st.Seed, Tier: st.Tier, Worker: st.Worker, Workers: workers, Index: i}
+					v.Detail += " (seen only after the plans this worker had executed before; replay re-runs them)"
+					min = cp
+				}
 			}
 			if k := known.match(min); k != "" {
 				if !knownSeen[k] {
@@ -413,6 +422,23 @@ func slimPlan(p *Plan) *Plan {
 		c.World.Containers = c.World.Containers[:4]
 	}
 	return c
+}
+
+// reproducesFresh replays a failing plan in a fresh process and reports whether it fails there too.
+func reproducesFresh(p *Plan, outPath string) bool {
+	dir := os.TempDir()
+	if outPath != "" {
+		dir = filepath.Dir(outPath)
+	}
+	f := filepath.Join(dir, fmt.Sprintf("confirm-%d.json", os.Getpid()))
+	if err := p.WriteFile(f); err != nil {
+		return true
+	}
+	defer os.Remove(f)
+	cmd := exec.Command(os.Args[0], "-test.run", "^TestSim$", "-test.count", "1", "-test.timeout", "300s")
+	cmd.Env = append(os.Environ(), "VERIF_REPLAY="+f, "VERIF_ONESHOT=", "VERIF_OUT=", "VERIF_MARK=")
+	out, _ := cmd.CombinedOutput()
+	return strings.Contains(string(out), "REPLAY-VIOLATION")
 }
 
 // outcomeSummary is what the history check compares: outcome class and canonical result.
@@ -494,12 +520,16 @@ func replay(t *testing.T, P Property, path string) {
 				}()
 			}
 		}
-		// the plan's own check ran before its history check (it may prime caches itself)
+		// the plan's own check comes first (it may prime caches itself, and it may be
+		// what failed); its history check second
+		var v *Violation
 		func() {
 			defer func() { _ = recover() }()
-			P.Check(t, p, nil)
+			v = P.Check(t, p, nil)
 		}()
-		v := historyCheck(t, p, nil, "")
+		if v == nil {
+			v = historyCheck(t, p, nil, "")
+		}
 		if v == nil {
 			fmt.Printf("REPLAY-OK property=%s file=%s\n", P.ID(), path)
 			return
